@@ -279,3 +279,114 @@ Example c10_tokens_nonvacuous :
                   (Some [3; 2]) true false
      = ([[(8, 4, 7); (9, 7, 11)]; [(3, 0, 2)]], [2; 1]).
 Proof. split; [split; [repeat constructor|reflexivity]|]. split; vm_compute; reflexivity. Qed.
+
+(* ================================================================================================== *)
+(* the tie to the source text (chunk_token_sequences_by_slices)                                       *)
+(*  PV.Gen.C10Src.chunk_tokens_body is regenerated from /repo/src/pydrobert/torch/_feats.py on every  *)
+(*  run (harness/py2coq/translate.py: the body of the function, node for node); PV.MiniPy.Interp is   *)
+(*  the semantics of the translated subset; SrcRun.ext10 gives the torch calls (ndim/size/shape,      *)
+(*  arange, ones, unsqueeze, broadcasting comparisons, &, all, ellipsis/slice/boolean-mask indexing,  *)
+(*  long().sum, expand, view, new_empty, masked_scatter_, the in-place += on a slice) the meaning     *)
+(*  defined in PV.MiniTorch.OpsC10 (unbounded integers; new_empty cells are UNDEFINED until written). *)
+(*  The theorems are about that regenerated term, for EVERY N, R, refs, slices, ref_lens given or     *)
+(*  omitted, partial, retain.  The model side is AS CODED (known finding K1: += where the property    *)
+(*  wants -=): that is what the text says.                                                            *)
+(* ================================================================================================== *)
+From PV Require MiniPy.Syntax MiniPy.Interp MiniTorch.OpsC10 MiniTorch.ValueC10 Gen.C10Src C10.SrcRun C10.TieModel C10.Tie
+  C10.TieShapes.
+
+(* running the source text on N rows of R triples returns exactly the model's result: the (N, R, 3) tensor whose row n
+   holds the model's tokens and then R - chunked_lens[n] UNDEFINED triples (SrcRun.chunked_tensor), and chunked_lens *)
+Theorem c10_source_tokens_is_model : forall R refs slices ref_lens partial retain,
+  tokens_shape_ok refs slices R -> TieModel.lens_shape_ok (length refs) ref_lens ->
+  exists st,
+    Interp.run SrcRun.ext10 C10Src.chunk_tokens_body (SrcRun.tokens_vars R refs slices ref_lens partial retain)
+    = Interp.Ok (SrcRun.result_value R (chunk_tokens as_coded refs slices ref_lens partial retain)) st.
+Proof. exact Tie.tokens_tie_ok. Qed.
+Print Assumptions c10_source_tokens_is_model.
+
+(* the same in the executable form the harness evaluates on the cases of every run: reading the DEFINED cells
+   chunked[n, :chunked_lens[n]] of what the interpreted source returns gives the model's lists *)
+Theorem c10_source_tokens_refines_model : forall R refs slices ref_lens partial retain,
+  tokens_shape_ok refs slices R -> TieModel.lens_shape_ok (length refs) ref_lens ->
+  SrcRun.src_chunk_tokens R refs slices ref_lens partial retain
+  = Some (chunk_tokens as_coded refs slices ref_lens partial retain).
+Proof. exact Tie.src_chunk_tokens_tie_ok. Qed.
+Print Assumptions c10_source_tokens_refines_model.
+
+Theorem c10_source_tokens_check_is_check : forall R refs slices ref_lens partial retain impl,
+  tokens_shape_ok refs slices R -> TieModel.lens_shape_ok (length refs) ref_lens ->
+  SrcRun.src_chunk_tokens_check R refs slices ref_lens partial retain impl
+  = check_tokens as_coded refs slices ref_lens partial retain impl.
+Proof. exact Tie.src_chunk_tokens_check_ok. Qed.
+Print Assumptions c10_source_tokens_check_is_check.
+
+(* malformed calls, ARBITRARY tensors (any data, any further arguments): RuntimeError, raised where the text raises it *)
+Theorem c10_source_tokens_raises_ndim : forall refs slices rl partial retain,
+  OpsC10.ndim refs <> 2%nat -> OpsC10.ndim refs <> 3%nat ->
+  Interp.run SrcRun.ext10 C10Src.chunk_tokens_body (SrcRun.tokens_vars_raw refs slices rl partial retain)
+  = Interp.Exc SrcRun.runtime_error (Interp.mkState (SrcRun.tokens_vars_raw refs slices rl partial retain) []).
+Proof. exact TieShapes.tokens_raises_ndim. Qed.
+Print Assumptions c10_source_tokens_raises_ndim.
+
+Theorem c10_source_tokens_raises_last_dim : forall refs slices rl partial retain n m k,
+  OpsC10.ishape refs = [n; m; k] -> k <> 3%nat ->
+  Interp.run SrcRun.ext10 C10Src.chunk_tokens_body (SrcRun.tokens_vars_raw refs slices rl partial retain)
+  = Interp.Exc SrcRun.runtime_error (Interp.mkState (SrcRun.tokens_vars_raw refs slices rl partial retain) []).
+Proof. exact TieShapes.tokens_raises_last_dim. Qed.
+Print Assumptions c10_source_tokens_raises_last_dim.
+
+Theorem c10_source_tokens_raises_slices : forall refs ss sd rl partial retain N R,
+  OpsC10.ishape refs = [N; R; 3%nat] -> ss <> [N; 2%nat] ->
+  exists st,
+    Interp.run SrcRun.ext10 C10Src.chunk_tokens_body
+      (SrcRun.tokens_vars_raw refs (OpsC10.mkIT ss sd) rl partial retain)
+    = Interp.Exc SrcRun.runtime_error st.
+Proof. exact TieShapes.tokens_raises_slices. Qed.
+Print Assumptions c10_source_tokens_raises_slices.
+
+Theorem c10_source_tokens_raises_ref_lens : forall refs slices ls ld partial retain N R,
+  OpsC10.ishape refs = [N; R; 3%nat] -> OpsC10.ishape slices = [N; 2%nat] -> ls <> [N] ->
+  exists st,
+    Interp.run SrcRun.ext10 C10Src.chunk_tokens_body
+      (SrcRun.tokens_vars_raw refs slices (Some (OpsC10.mkIT ls ld)) partial retain)
+    = Interp.Exc SrcRun.runtime_error st.
+Proof. exact TieShapes.tokens_raises_ref_lens. Qed.
+Print Assumptions c10_source_tokens_raises_ref_lens.
+
+(* token-only (2-D) refs: an (N, 0) tensor and N zero lengths, whatever the other arguments are *)
+Theorem c10_source_tokens_2d_empty : forall refs slices rl partial retain N R,
+  OpsC10.ishape refs = [N; R] ->
+  exists st,
+    Interp.run SrcRun.ext10 C10Src.chunk_tokens_body (SrcRun.tokens_vars_raw refs slices rl partial retain)
+    = Interp.Ok (Syntax.VTuple [ValueC10.enc10 (OpsC10.new_empty [N; 0%nat]); ValueC10.enc10 (OpsC10.new_zeros [N])]) st.
+Proof. exact TieShapes.tokens_2d. Qed.
+Print Assumptions c10_source_tokens_2d_empty.
+
+(* composed with c10_tokens_kept_iff_contained_or_overlap / c10_tokens_order_preserved: a statement purely about the
+   interpreted source.  Whatever the boundary arithmetic as coded does (K1), the value the source returns decodes to
+   rows / lens such that row n holds exactly the tokens of refs[n] that lie before ref_lens[n] and whose known segment
+   is contained in (partial: overlaps) slices[n] - same token ids, same order as the spec's unique answer spec_row -,
+   chunked_lens[n] is their number, and with retain the triples themselves are the spec's. *)
+Theorem c10_source_tokens_kept_in_order : forall R refs slices ref_lens partial retain n,
+  tokens_shape_ok refs slices R -> TieModel.lens_shape_ok (length refs) ref_lens -> (n < length refs)%nat ->
+  exists rows lens st spec_row,
+    Interp.run SrcRun.ext10 C10Src.chunk_tokens_body (SrcRun.tokens_vars R refs slices ref_lens partial retain)
+      = Interp.Ok (SrcRun.result_value R (rows, lens)) st
+    /\ SrcRun.read_result (SrcRun.chunked_tensor R rows) (SrcRun.vec_tensor lens) = Some (rows, lens)
+    /\ tokens_row_spec partial retain (rowL ref_lens n) (nth n slices (0, 0)) (nth n refs []) spec_row
+    /\ map tk_tok (nth n rows []) = map tk_tok spec_row
+    /\ nth n lens 0 = zlen spec_row
+    /\ (retain = true -> nth n rows [] = spec_row).
+Proof. exact Tie.source_tokens_kept_in_order_ok. Qed.
+Print Assumptions c10_source_tokens_kept_in_order.
+
+(* non-vacuity: the interpreted source on the inputs of c10_tokens_nonvacuous (as coded: + 2 on the first row), a
+   malformed and a 2-D call *)
+Example c10_source_tokens_nonvacuous :
+  SrcRun.src_chunk_tokens 3 [[(8, 2, 5); (9, 5, 9); (1, 9, 12)]; [(3, 0, 2); (4, -1, -1); (5, 1, 1)]] [(2, 9); (0, 2)]
+      (Some [3; 2]) true false
+    = Some ([[(8, 4, 7); (9, 7, 11)]; [(3, 0, 2)]], [2; 1])
+  /\ SrcRun.src_tokens_rejects [1; 3; 2]%nat [1; 2]%nat None = true
+  /\ SrcRun.src_tokens_2d_empty 2 3 = true.
+Proof. split; [vm_compute; reflexivity|]. split; vm_compute; reflexivity. Qed.
